@@ -3,6 +3,7 @@ package scen
 import (
 	"encoding/json"
 	"fmt"
+	"os"
 	"sort"
 	"strings"
 	"sync"
@@ -146,6 +147,10 @@ const searchRule = "explicit-state search: every sequence of events from the uni
 // replayed through the full ABCI stack (env.ReplayThroughABCI).
 type Tier2Provider interface{ ProviderForTier2() *env.Provider }
 
+// Tier2X is implemented by the workers of cross-chain scenarios: the provider's and every consumer
+// chain's part of a trace is replayed through the full ABCI stack of its own fresh application.
+type Tier2X interface{ XWorldForTier2() *XWorld }
+
 var tier2Mu sync.Mutex
 
 // tier2 replays the sample traces of a provider-only scenario on a fresh application through
@@ -157,10 +162,66 @@ func tier2(sc engine.Scenario, traces [][]string) (int64, error) {
 	var n int64
 	for _, tr := range traces {
 		env.RecordNextProvider = true
+		env.RecordNextConsumers = true
 		w, err := sc.NewWorker(engine.NewStats())
 		env.RecordNextProvider = false
+		env.RecordNextConsumers = false
 		if err != nil {
 			return n, nil
+		}
+		if xp, ok := w.(Tier2X); ok {
+			xw := xp.XWorldForTier2()
+			if xw.P.Chain.Rec == nil || !xw.CA.Record {
+				return 0, nil
+			}
+			// close the trace with one more block on every chain, so that transactions delivered in the
+			// last (still open) blocks are executed and compared as well
+			closed := append([]string{}, tr...)
+			var pblk []string
+			for _, ev := range w.Enabled(w.Root()) {
+				if len(ev) > 6 && ev[0] == 'C' && strings.HasSuffix(ev, ".block") {
+					closed = append(closed, ev)
+				}
+				if ev == "P.block" {
+					pblk = append(pblk, ev)
+				}
+			}
+			closed = append(closed, pblk...)
+			if _, _, err := engine.Replay(w, closed); err != nil {
+				continue
+			}
+			okAll := true
+			if _, err := env.ReplayThroughABCI(xw.P, xw.P.Chain.Rec); err != nil {
+				if !strings.HasPrefix(err.Error(), "not replayable") {
+					return n, fmt.Errorf("trace %v (provider side): %w", tr, err)
+				}
+				okAll = false
+			}
+			for _, ch := range xw.CA.Booted {
+				nb, err := env.ReplayConsumerThroughABCI(ch.ChainID, ch.Rec)
+				if os.Getenv("MC_DEBUG") != "" {
+					ntx, nref := 0, 0
+					for _, op := range ch.Rec.Ops {
+						if op.Msg != nil {
+							ntx++
+						}
+						if op.Refresh != nil {
+							nref++
+						}
+					}
+					fmt.Fprintf(os.Stderr, "DEBUG tier2x consumer %s: %d blocks, %d txs, %d refreshes, %d claims, provider ops %d claims %d, err=%v\n", ch.ChainID, nb, ntx, nref, len(ch.Rec.Claims), len(xw.P.Chain.Rec.Ops), len(xw.P.Chain.Rec.Claims), err)
+				}
+				if err != nil {
+					if !strings.HasPrefix(err.Error(), "not replayable") {
+						return n, fmt.Errorf("trace %v (consumer chain %s): %w", tr, ch.ChainID, err)
+					}
+					okAll = false
+				}
+			}
+			if okAll {
+				n++
+			}
+			continue
 		}
 		tp, ok := w.(Tier2Provider)
 		if !ok {
